@@ -11,8 +11,11 @@ import (
 	"io"
 	"math"
 	"os"
+	"runtime/metrics"
 	"sort"
+	"strconv"
 	"strings"
+	"sync/atomic"
 	"time"
 
 	"github.com/wkhere/bcl"
@@ -130,9 +133,31 @@ func guard(timeout time.Duration, f func()) (class string, panicMsg string) {
 		}
 		return "ok", ""
 	case <-time.After(timeout):
+		sawHang.Store(true) // the goroutine cannot be stopped: the process exits after this case (see main)
 		return "hang", ""
 	}
 }
+
+// sawHang: some guarded call did not return; main exits (status 4) once the current case is reported, and the
+// caller restarts the probe on the remaining cases.
+var sawHang atomic.Bool
+
+// memWatch ends the process (status 5) when its memory exceeds the limit: a call that spins while allocating
+// (for instance writing diagnostics for ever) must not take the machine down.  The case being run gets no
+// result line; the caller reports it and restarts the probe on the cases after it.
+func memWatch(limitMB uint64) {
+	samples := []metrics.Sample{{Name: "/memory/classes/total:bytes"}}
+	for {
+		time.Sleep(50 * time.Millisecond)
+		metrics.Read(samples)
+		if samples[0].Value.Kind() == metrics.KindUint64 && samples[0].Value.Uint64() > limitMB<<20 {
+			fmt.Fprintf(os.Stderr, "RUNAWAY: memory above %d MB while running case %v\n", limitMB, currentID.Load())
+			os.Exit(5)
+		}
+	}
+}
+
+var currentID atomic.Value
 
 // chunkReader delivers data in pieces of the given sizes (cyclic; 0 = empty read with nil error).
 type chunkReader struct {
@@ -201,6 +226,12 @@ func main() {
 		fmt.Fprintln(os.Stderr, "unknown suite", os.Args[1])
 		os.Exit(2)
 	}
+	limit := uint64(6144)
+	if v, err := strconv.ParseUint(os.Getenv("VERIF_MEM_LIMIT_MB"), 10, 64); err == nil && v > 0 {
+		limit = v
+	}
+	currentID.Store("")
+	go memWatch(limit)
 	in := bufio.NewReaderSize(os.Stdin, 1<<20)
 	out := bufio.NewWriterSize(os.Stdout, 1<<20)
 	defer out.Flush()
@@ -213,9 +244,14 @@ func main() {
 				fmt.Fprintln(os.Stderr, "bad case:", e)
 				os.Exit(2)
 			}
+			currentID.Store(fmt.Sprint(c["id"]))
 			r := f(c)
 			r["id"] = c["id"]
 			enc.Encode(r)
+			out.Flush()
+			if sawHang.Load() {
+				os.Exit(4)
+			}
 		}
 		if err != nil {
 			break
